@@ -117,6 +117,15 @@ func (r *c14) note(d *mdiff.Diff, mode string) {
 			break
 		}
 	}
+	for _, c := range d.Chunks {
+		if c.LEnd >= 1000 || c.REnd >= 1000 {
+			r.st.Note("line-numbers>=1000")
+			break
+		}
+	}
+	lbNote(r.st, "format-left-lines", len(r.left))
+	lbNote(r.st, "format-chunks", len(d.Chunks))
+	lbNote(r.st, "format-longest-line-bytes", c13longest(r.left, r.right))
 	for _, l := range append(slices.Clone(r.left), r.right...) {
 		if l == "" {
 			r.st.Note("empty-line")
@@ -314,6 +323,12 @@ func c14gen(kind string) func(g *G) {
 			}
 			g.Case(ops)
 		})
+		for _, b := range c13bigCases(g) {
+			if len(b.left) > 1500 && !g.Thorough() {
+				continue // the quick tier formats files of up to 1058 lines (four-digit line numbers included)
+			}
+			g.Each(c14bigOps(g, b, kind))
+		}
 	}
 }
 
